@@ -1210,3 +1210,23 @@ func scalarCells(a *Arr) bool {
 	_, ok := c.v.(*Term)
 	return ok
 }
+
+// uniqueValue: the value of t if the path condition admits exactly one (no fork, no decision).
+func (e *Exec) uniqueValue(t *Term) (int64, bool) {
+	if t.IsConst() {
+		return int64(t.val), true
+	}
+	if e.cfg.Concrete != nil {
+		return 0, false
+	}
+	r := e.sol.Prove(e.tb, e.slicePC(t), []*Term{t}, e.cfg.FeasTimeout)
+	if r.Status != "sat" {
+		return 0, false
+	}
+	v := r.Model[t.ref()]
+	if e.feasible(e.tb.Ne(t, e.tb.Const(t.w, v))) {
+		return 0, false
+	}
+	e.addPCKind(e.tb.Eq(t, e.tb.Const(t.w, v)), 'p')
+	return int64(v), true
+}
